@@ -58,6 +58,8 @@ type FuncContract struct {
 	Pure       bool
 	Inline     bool
 	NoPanic    bool
+	Shared       []string          // func: all keys sharing this contract
+	Abstract     string            // iface: implementations are not verified (assumed), with reason
 	SkipImpl     map[string]string // iface: implementations not verified (key -> reason), reported
 	CallbackLoop bool // extern: calls its closure argument any number of times
 	Functional bool // extern: result is a function of scalar args
@@ -461,10 +463,20 @@ func (cs *ContractSet) parseFile(file, pkgPath string) error {
 			cur = fc
 			switch word {
 			case "func":
-				if _, dup := cs.Funcs[pkgPath+" "+key]; dup {
-					return fmt.Errorf("%s:%d: duplicate contract for %s", l.file, l.line, key)
+				// several functions may share one contract: "func (*DB).Model (*DB).Table"
+				ks := strings.Fields(key)
+				if len(ks) > 1 && !strings.Contains(key, ", ") {
+					fc.Key = ks[0]
+					fc.Shared = ks
+				} else {
+					ks = []string{key}
 				}
-				cs.Funcs[pkgPath+" "+key] = fc
+				for _, k := range ks {
+					if _, dup := cs.Funcs[pkgPath+" "+k]; dup {
+						return fmt.Errorf("%s:%d: duplicate contract for %s", l.file, l.line, k)
+					}
+					cs.Funcs[pkgPath+" "+k] = fc
+				}
 			case "iface":
 				// "database/sql/driver.Valuer.Value": explicit package path
 				if n := strings.Count(key, "."); n >= 2 {
@@ -602,6 +614,12 @@ func (cs *ContractSet) parseFile(file, pkgPath string) error {
 					cur.Functional = true
 				case "inline":
 					cur.Inline = true
+				case "abstract":
+					cur.Abstract = rest
+					if rest == "" {
+						cur.Abstract = "unspecified"
+					}
+					cs.Scan["abstract"]++
 				case "callback-loop":
 					cur.CallbackLoop = true
 				case "skip-impl":
